@@ -441,9 +441,6 @@ func (w *caWorld) sign(i int, s Step) *simkit.Violation {
 	if _, cfg, _ := w.C.L.State().CAConfig(nil); cfg == nil || cfg.ClusterID != caClusterID {
 		// (a shrunk plan without the configuration step: the CA made up its own cluster id, the
 		// generated URIs name another trust domain)
-		if err == nil {
-			return mk("unauthorized-issue", "issued-only-for-one-authorized-identity-of-this-cluster", "a certificate was issued for a trust domain that is not this cluster's")
-		}
 		return nil
 	}
 	if err != nil {
